@@ -74,13 +74,17 @@ def main():
                 owner.append(("layout", j, which))
         # --- clocks
         clock_lines = []
-        ids = [0, 1, 1, 2, 3, 1, 4, 7, 0xFFFFFFFF, 1, 0, 1]
+        ids = [0, 1, 1, 2, 3, 1, 4, 7, 0xFFFFFFFF, 1, 0, 1] + [1] * 24 + [0] * 6
         if tier != "quick":
             ids = ids * 17
         sf = os.path.join(wd, "clk.txt")
         # ids -1: a helper thread burns CPU first, so that afterwards the process CPU clock (2) and this thread's (3) differ widely
         ids = ids[:4] + [-1] + ids[4:] + [2, 3, 3, 2]
-        open(sf, "w").write("".join(("clock %s %d\n" % (rng.choice("pu"), i)) if i >= 0 else "burn x 120\n" for i in ids))
+        # the precision argument is the lag the caller tolerates: values may be that much behind the host's reading taken
+        # before the call, never ahead of the one taken after it, and the monotonic clock never steps back whatever
+        # precisions are mixed
+        precs = [rng.choice([0, 1, 1, 1000, 10 ** 6, 10 ** 7, 10 ** 8, 10 ** 9, 5 * 10 ** 9]) for _ in ids]
+        open(sf, "w").write("".join(("clock %s %d %d\n" % (rng.choice("pu"), i, p)) if i >= 0 else "burn x 120\n" for i, p in zip(ids, precs)))
         os.makedirs(os.path.join(wd, "csb"), exist_ok=True)
         rc, so, se = run([exe, os.path.join(wd, "csb"), sf, "--"], timeout=120, env={"ASAN_OPTIONS": "detect_leaks=0"})
         lines = [json.loads(l) for l in so.splitlines() if l.startswith("{")]
@@ -97,11 +101,25 @@ def main():
             wrote = any(wasi.R1 <= a < wasi.R1 + 8 for a in ch)
             ns = int.from_bytes(bytes(ch.get(wasi.R1 + k, 0xEE) for k in range(8)), "little") if wrote else 0
             t = [ns // 10 ** 9, ns % 10 ** 9] if ns < 2 ** 62 else [2 ** 31 - 1, 0]
+            lo = max(0, br["bracket"][0] * 10 ** 9 + br["bracket"][1] - precs[n])
             recs.append({"kind": "clock", "id": cid if cid < 2 ** 31 else 2 ** 31 - 1, "errno": ob["errno"], "wrote": wrote, "t": t,
-                         "before": br["bracket"][:2], "after": br["bracket"][2:], "prev": list(prev)})
+                         "before": [lo // 10 ** 9, lo % 10 ** 9], "after": br["bracket"][2:], "prev": list(prev)})
             owner.append(("clock", cid, ob))
             if cid == 1 and ob["errno"] == 0:
                 prev = t
+        # --- back-to-back readings of one clock with mixed precisions: the monotonic clock never steps back
+        seqs = [(1, [rng.choice([0, 1, 1, 10 ** 7, 10 ** 8, 10 ** 9]) for _ in range(60)]) for _ in range(6 if tier == "quick" else 60)] + \
+               [(1, [1, 10 ** 9] * 30), (1, [10 ** 9, 0] * 30), (0, [1, 10 ** 8] * 10)]
+        sf = os.path.join(wd, "clkseq.txt")
+        open(sf, "w").write("".join("clockseq %s %d %s\n" % (rng.choice("pu"), cid, " ".join(map(str, ps))) for cid, ps in seqs))
+        rc, so, se = run([exe, os.path.join(wd, "csb"), sf, "--"], timeout=120, env={"ASAN_OPTIONS": "detect_leaks=0"})
+        sl = [json.loads(l) for l in so.splitlines() if '"clockseq"' in l]
+        for n, (cid, ps) in enumerate(seqs):
+            if n >= len(sl):
+                v.deviation("clock:no-observation", {"id": cid, "stderr": se[-300:]})
+                continue
+            recs.append({"kind": "clockseq", "id": cid, "errno": sl[n]["errno"], "ts": [[x // 10 ** 9, x % 10 ** 9] for x in sl[n]["ts"]]})
+            owner.append(("clockseq", cid, {"precisions": ps, "values": sl[n]["ts"]}))
         # --- randomness: two fills with different patterns per length
         lens = [0, 1, 15, 16, 255, 256, 257, 4096, 65536] + ([2 ** 20] if tier != "quick" else [100000])
         sf = os.path.join(wd, "rnd.txt")
@@ -190,13 +208,14 @@ def main():
         inf, outf = os.path.join(wd, "proc.ndjson"), os.path.join(wd, "judged.ndjson")
         # uniform records for TLC
         keys = {"kind": "", "vec": [], "buf": 0, "id": 0, "errno": 0, "wrote": False, "t": [0, 0], "before": [0, 0], "after": [0, 0], "prev": [0, 0], "len": 0,
-                "outside": 0, "run1": 0, "run2": 0, "code": 0, "status": 0, "returned": False, "hasStart": False, "spawns": [], "starts": [], "cell": 0}
+                "ts": [], "outside": 0, "run1": 0, "run2": 0, "code": 0, "status": 0, "returned": False, "hasStart": False, "spawns": [], "starts": [], "cell": 0}
         write_ndjson(inf, [dict(keys, **r) for r in recs])
         jr = tlc_ok(tlc("WasiProc", env={"INFILE": inf, "OUTFILE": outf}, timeout=1800, xmx="6g"), "WasiProc")
         judged = read_ndjson(outf)[0]
         for k in judged["bad"]:
             kind, a, b = owner[k - 1]
             sig = ("random:%s" % ("fails-above-256-bytes" if a > 256 else "len-%d" % a)) if kind == "random" else \
+                  "clock:steps-back" if kind == "clockseq" else \
                   ("clock:id-%d" % (a if a < 10 else 99)) if kind == "clock" else \
                   {"exit": "exit:%s" % a, "spawn": "spawn:%s" % (a if isinstance(a, str) else "K=%s" % a), "layout": "layout:model"}[kind]
             if kind == "layout":
